@@ -94,6 +94,8 @@ pub struct Fx {
     pub socks_port: u16,
     pub http_port: u16,
     pub lp_udp: u16,
+    /// further plain UDP remotes (same target): used by cases that need a listener nobody else talks to
+    pub lp_udp_extra: Vec<u16>,
     registry: Arc<Mutex<HashMap<u64, TScript>>>,
 }
 
@@ -307,19 +309,29 @@ async fn build_fixture() -> Result<Fx, String> {
         let s = UdpSocket::bind("127.0.0.1:0").await.map_err(|e| e.to_string())?;
         s.local_addr().unwrap().port()
     };
+    let mut lp_udp_extra = vec![];
+    for _ in 0..8 {
+        let s = UdpSocket::bind("127.0.0.1:0").await.map_err(|e| e.to_string())?;
+        lp_udp_extra.push(s.local_addr().unwrap().port());
+    }
     let closed_port = free_port().await;
     let uds = tmp_dir().join(format!("c01-{}.sock", std::process::id()));
     let _ = std::fs::remove_file(&uds);
     let inet = |p: u16| LocalSpec::Inet(("127.0.0.1".to_string(), p));
+    let mut extra_remotes: Vec<Remote> = lp_udp_extra.iter().map(|p| Remote { local_addr: inet(*p), remote_addr: RemoteSpec::Inet(("127.0.0.1".into(), uport)), protocol: Protocol::Udp }).collect();
     let args: &'static ClientArgs = Box::leak(Box::new(ClientArgs {
         server: ServerUrl::from_str(&format!("ws://127.0.0.1:{sport}/ws")).map_err(|e| e.to_string())?,
-        remote: vec![
+        remote: {
+            let mut v = vec![
             Remote { local_addr: inet(lp_tcp), remote_addr: RemoteSpec::Inet(("127.0.0.1".into(), tport)), protocol: Protocol::Tcp },
             Remote { local_addr: LocalSpec::DomainSocket(uds.clone()), remote_addr: RemoteSpec::Inet(("127.0.0.1".into(), tport)), protocol: Protocol::Tcp },
             Remote { local_addr: inet(socks_port), remote_addr: RemoteSpec::Socks, protocol: Protocol::Tcp },
             Remote { local_addr: inet(http_port), remote_addr: RemoteSpec::Http, protocol: Protocol::Tcp },
             Remote { local_addr: inet(lp_udp), remote_addr: RemoteSpec::Inet(("127.0.0.1".into(), uport)), protocol: Protocol::Udp },
-        ],
+            ];
+            v.append(&mut extra_remotes);
+            v
+        },
         keepalive: OptionalDuration::NONE,
         keepalive_timeout: OptionalDuration::NONE,
         max_retry_count: 0,
@@ -341,7 +353,7 @@ async fn build_fixture() -> Result<Fx, String> {
         }
         tokio::time::sleep(Duration::from_millis(10)).await;
     }
-    Ok(Fx { tcp_target_port: tport, closed_port, udp_target_port: uport, udp_target2_port: uport2, lp_tcp, uds, socks_port, http_port, lp_udp, registry })
+    Ok(Fx { tcp_target_port: tport, closed_port, udp_target_port: uport, udp_target2_port: uport2, lp_tcp, uds, socks_port, http_port, lp_udp, lp_udp_extra, registry })
 }
 
 pub fn fx() -> Result<&'static Fx, String> {
@@ -667,6 +679,9 @@ pub struct UdpClient {
     /// during the idle period keep sending datagrams that ask for no reply (send-only traffic), one per second
     #[serde(default)]
     pub idle_send_only: bool,
+    /// plain UDP remote to use: 0 = the shared one, k = the k-th extra listener (nobody else talks to it)
+    #[serde(default)]
+    pub listener: u8,
 }
 
 /// many UDP clients that stay open at the same time, and TCP connections made while they are
@@ -704,7 +719,7 @@ async fn run_udp_client(f: &'static Fx, idx: usize, c: UdpClient, hold_until: Op
         _ctrl = Some(s);
         SocketAddr::from((if ip.is_unspecified() { std::net::Ipv4Addr::LOCALHOST } else { ip }, port))
     } else {
-        SocketAddr::from(([127, 0, 0, 1], f.lp_udp))
+        SocketAddr::from(([127, 0, 0, 1], if c.listener == 0 { f.lp_udp } else { f.lp_udp_extra[(c.listener as usize - 1) % f.lp_udp_extra.len()] }))
     };
     for (k, size) in c.sizes.iter().enumerate() {
         if c.idle_ms > 0 && k == c.idle_at as usize {
@@ -841,7 +856,7 @@ pub fn check_crowd(case: &CrowdCase) -> Outcome {
         // go away runs into its 20 s limit
         let release = Arc::new(std::sync::atomic::AtomicBool::new(false));
         let udp: Vec<_> = (0..case.n_udp as usize)
-            .map(|i| tokio::spawn(run_udp_client(f, i, UdpClient { socks5: case.socks5, atyp: (i % 3) as u8, sizes: vec![16], replies: 1, targets: vec![], hold_ms: 0, idle_ms: 0, idle_at: 0, idle_send_only: false }, Some(release.clone()))))
+            .map(|i| tokio::spawn(run_udp_client(f, i, UdpClient { socks5: case.socks5, atyp: (i % 3) as u8, sizes: vec![16], replies: 1, targets: vec![], hold_ms: 0, idle_ms: 0, idle_at: 0, idle_send_only: false, listener: 0 }, Some(release.clone()))))
             .collect();
         // the exchanges take well under a second
         tokio::time::sleep(Duration::from_millis(1500)).await;
@@ -1001,13 +1016,19 @@ pub fn run(ctx: &Ctx, rep: &mut Report) {
     ctx.enumerate(
         rep,
         "udp-idle-resume",
-        ctx.tier.pick(2, 6),
+        ctx.tier.pick(2, 8),
         1,
         |i| {
             let idle_ms = [21_500u32, 12_000, 31_000][((i / 2) % 3) as usize];
             let send_only = i % 2 == 1;
-            let mk = |socks5: bool, atyp: u8, replies: u8| UdpClient { socks5, atyp, sizes: vec![40, 3, 700, 40], replies, targets: vec![], hold_ms: 0, idle_ms, idle_at: 2, idle_send_only: send_only };
-            UdpCase { clients: vec![mk(false, 0, 1), mk(true, 0, 2), mk(true, 1, 1), mk(true, 2, 1), mk(false, 0, 3)] }
+            let listener = 1 + (i % 8) as u8;
+            let mk = |socks5: bool, atyp: u8, replies: u8| UdpClient { socks5, atyp, sizes: vec![40, 3, 700, 40], replies, targets: vec![], hold_ms: 0, idle_ms, idle_at: 2, idle_send_only: send_only, listener };
+            // exactly ONE user of the plain UDP remote (per-listener state about 'the previous sender' stays on it), or two that alternate
+            let mut clients = vec![mk(false, 0, 1), mk(true, 0, 2), mk(true, 1, 1), mk(true, 2, 1)];
+            if (i / 2) % 2 == 1 {
+                clients.push(mk(false, 0, 3)); // a second user of the same listener: the two alternate
+            }
+            UdpCase { clients }
         },
         check_udp,
     );
@@ -1017,7 +1038,7 @@ pub fn run(ctx: &Ctx, rep: &mut Report) {
         ctx.tier.pick(480, 10_000),
         20,
         || {
-            let client = (any::<bool>(), 0u8..3, prop::collection::vec(prop::sample::select(vec![0u32, 1, 2, 3, 4, 7, 512, 1400, 8000, 60_000]), 1..5), 0u8..4, prop::collection::vec(0u8..2, 0..4)).prop_map(|(socks5, atyp, sizes, replies, targets)| UdpClient { socks5, atyp, sizes, replies, targets, hold_ms: 0, idle_ms: 0, idle_at: 0, idle_send_only: false });
+            let client = (any::<bool>(), 0u8..3, prop::collection::vec(prop::sample::select(vec![0u32, 1, 2, 3, 4, 7, 512, 1400, 8000, 60_000]), 1..5), 0u8..4, prop::collection::vec(0u8..2, 0..4)).prop_map(|(socks5, atyp, sizes, replies, targets)| UdpClient { socks5, atyp, sizes, replies, targets, hold_ms: 0, idle_ms: 0, idle_at: 0, idle_send_only: false, listener: 0 });
             prop::collection::vec(client, 1..=6).prop_map(|clients| UdpCase { clients })
         },
         check_udp,
